@@ -98,6 +98,8 @@ struct LssRun : NodeEnv {
     void op(const Op &o) {
         const std::string &k = o.k;
         if (k == "lss") lssFrame(o);
+        else if (k == "setident") {   // the application sets part of the identity through the API after start-up (serial number read from hardware, ...): LSS must use the object, not a copy
+            if (dead) return; int part = (int)(o.arg(0) % 4); uint32_t val = (uint32_t)o.arg(1); w.cur = 0; CO_ERR e = CODictWrLong(&N()->Dict, CO_DEV(0x1018, (uint8_t)(part + 1)), val); if (e == CO_ERR_NONE) { ident[part] = val; selStrict = idStrict = 0; /* parts that matched before the change did match when they arrived: a sequence in progress may or may not complete */ cov.hit("identity-set-through-api"); nontrivial = true; } }
         else if (k == "storefail") { S().lssStoreFail = (int)o.arg(0); }
         else if (k == "nmt") {
             uint8_t cs = (uint8_t)o.arg(0); if (nmtUnknown || (dead && cs != 129 && cs != 130)) return; dead = false; 
@@ -129,7 +131,8 @@ struct LssRun : NodeEnv {
 Plan gen_lss(Rng &r, bool thorough) {
     Plan p; for (int i = 0; i < 4; i++) p.cfg["id" + std::to_string(i)] = r.below(8); p.cfg["nodeid"] = r.pick<int64_t>({1, 2, 64, 127});
     static const uint32_t IDV[] = {0, 1, 2, 0x7FFFFFFF, 0x80000000u, 0xFFFFFFFEu, 0xFFFFFFFFu, 0x12345678};
-    auto ident = [&](int part) { return IDV[(size_t)p.cfg["id" + std::to_string(part)] % 8]; };
+    uint32_t curId[4]; for (int i = 0; i < 4; i++) curId[i] = IDV[(size_t)p.cfg["id" + std::to_string(i)] % 8];   // the generator follows identity changes made through the API
+    auto ident = [&](int part) { return curId[part]; };
     auto argOf = [&](int part) -> uint32_t { uint32_t v = ident(part); int c = (int)r.below(10); return c < 6 ? v : c == 6 ? v + 1 : c == 7 ? v - 1 : c == 8 ? r.pick<uint32_t>({0, 0xFFFFFFFFu, 0x12345678}) : (uint32_t)r.next(); };
     auto frame = [&](uint8_t cs, uint32_t a, uint8_t b5 = 0) { std::vector<uint8_t> b = {cs, (uint8_t)a, (uint8_t)(a >> 8), (uint8_t)(a >> 16), (uint8_t)(a >> 24), b5, 0, 0}; return Op("lss", {cs, r.chance(1, 12) ? (int64_t)r.range(1, 2) : 0}, b); };
     int n = (int)r.range(3, thorough ? 50 : 25);
@@ -149,6 +152,7 @@ Plan gen_lss(Rng &r, bool thorough) {
         }
         else if (c < 13) p.ops.push_back(frame(17, r.pick<uint32_t>({0, 1, 5, 127, 128, 254, 255, 64})));
         else if (c < 15) p.ops.push_back(frame(19, (uint32_t)(r.chance(4, 5) ? 0 : 1) | (uint32_t)r.below(12) << 8));
+        else if (c < 17 && r.chance(1, 4)) { int part = (int)r.below(4); uint32_t nv = r.chance(1, 2) ? IDV[r.below(8)] : (uint32_t)r.next(); p.ops.push_back(Op("setident", {part, (int64_t)nv})); curId[part] = nv; }
         else if (c < 17) { if (r.chance(1, 5)) p.ops.push_back(Op("storefail", {1})); p.ops.push_back(frame(23, 0)); }
         else if (c < 19) p.ops.push_back(frame((uint8_t)r.range(90, 94), 0));
         else if (c == 19) p.ops.push_back(frame(r.pick<uint8_t>({0, 1, 5, 16, 18, 20, 22, 63, 68, 69, 77, 79, 89, 95, 255}), (uint32_t)r.next()));
